@@ -8,6 +8,7 @@ import (
 	"errors"
 	"fmt"
 	"io"
+	"math"
 	"net"
 	"sync"
 	"sync/atomic"
@@ -51,7 +52,7 @@ func (bc *bufferedConn) Write(b []byte) (int, error) {
 }
 
 func (bc *bufferedConn) writeProcess() {
-	pktBuf := make([]byte, receiveMTU)
+	pktBuf := make([]byte, math.MaxUint16+streamingPacketHeaderLen)
 	for atomic.LoadInt32(&bc.closed) == 0 {
 		n, err := bc.buf.Read(pktBuf)
 		if errors.Is(err, io.EOF) {
